@@ -75,6 +75,7 @@ class MI:
         self.epoch_seq = 0        # submission counter value at the last configuration change
         self.blocked_swallow = 0
         self.cg_seen = {}
+        self.comp_aborted = set()
         rows = list(m['table'])
         self.has_completion = any(r['ev'] is None for r in rows)
         self.has_blocking = any(s['kind'] in ('terminate', 'interrupt') for s in m['states'].values())
@@ -177,7 +178,27 @@ class Acceptor:
             return
         while True:
             got = self.peek()
-            if got is None or got.k != 'G' or got.v != 0 or got.ev != 'none':
+            if got is None or got.ev != 'none' or got.k not in ('G', 'EX'):
+                return
+            if self.cfg != 'bc':
+                # a completion step that was aborted by an exception is offered again when an enclosing
+                # machine forwards its own completion event (back / back11 with forwarding rows): the
+                # source state is still active and its transition has not completed since it was entered
+                if got.k == 'EX':
+                    parts = got.site.split('.')
+                else:
+                    parts = (self.gsite_by_name.get(got.site) or {}).get('cg_src')
+                    parts = parts.split('.') if parts else ['', '']
+                mname, sname = parts[0], parts[1]
+                root = self.inst.get(self.cur_tag)
+                mi = self.find_instance(root, mname) if root and mname else None
+                if mi is not None and sname in mi.active and not mi.processing and sname in mi.comp_aborted:
+                    mi.comp_aborted.discard(sname)
+                    mi.comp = [mi.active.index(sname)]
+                    self.counts['completion_reoffered'] = self.counts.get('completion_reoffered', 0) + 1
+                    self.schedule(mi)
+                    continue
+            if got.k != 'G' or got.v != 0:
                 return
             gs = self.gsite_by_name.get(got.site)
             if gs is None or gs['cg_src'] is None:
@@ -185,10 +206,19 @@ class Acceptor:
             mname, sname = gs['cg_src'].split('.')
             root = self.inst.get(self.cur_tag)
             mi = self.find_instance(root, mname) if root else None
-            if mi is None or not mi.running or sname not in mi.active or not self.was_evaluated(mi, sname, got.site):
+            if mi is None or sname not in mi.active:
+                return
+            if got.v != 0 or not self.was_evaluated(mi, sname, got.site):
                 return
             self.counts['completion_retries'] = self.counts.get('completion_retries', 0) + 1
             self.take()
+            # effects / failpoint attached to the re-evaluation
+            try:
+                self.after_cb('G', got.site, mi)
+            except ModelThrow as t:
+                self.expect_cb('XC', mi.name, mi, 'none', -1, {'C12'}, 'exception-caught', v=t.seq)
+                self.after_cb('C', mi.name, mi)
+                self.threw = True
 
     def was_evaluated(self, mi, sname, gsite):
         return gsite in mi.cg_seen.get(sname, ())
@@ -565,6 +595,7 @@ class Acceptor:
 
     def note_entered(self, mi, r, sn):
         mi.cg_seen.pop(sn, None)
+        mi.comp_aborted.discard(sn)
         if mi.kind(sn) != 'sub' and any(self.ix.row_src_state(rw) == sn and rw['ev'] is None for rw in mi.m['table']):
             if self.mp:
                 mi.comp.insert(0, r)
@@ -714,6 +745,8 @@ class Acceptor:
                 self.after_cb('C', mi.name, mi)
                 self.threw = True
                 res = 0
+                if mi.active[r] is not None:
+                    mi.comp_aborted.add(mi.active[r])
             mi.processing = False
             self.hit('C10', (mi.name, mi.active[r], res & 7, len(mi.queue), len(mi.deferred)))
             fired |= bool(res & T)
